@@ -24,15 +24,21 @@ PID = "C14"
 THEOREMS = [
     "PorepyVerif.C14.glue_entry",
     "PorepyVerif.C14.glue_eq_whole",
+    "PorepyVerif.C14.glue_eq_whole_vec",
     "PorepyVerif.C14.glue_unowned_zero",
     "PorepyVerif.C14.glueNoScale_eq_whole",
     "PorepyVerif.C14.partial_fresh_rows",
     "PorepyVerif.C14.partial_update_rows",
     "PorepyVerif.C14.partial_update_eq_whole",
+    "PorepyVerif.C14.partial_update_eq_whole_specified",
     "PorepyVerif.C14.l2g_maps_inverse",
     "PorepyVerif.C14.mapAll_entry_of_inj",
-    "PorepyVerif.C14.glueAsCoded_eq_glue_of_no_shortcut",
-    "PorepyVerif.C14.glueAsCoded_single_identity",
+    "PorepyVerif.C14.glueAsCoded_eq_glue",
+    "PorepyVerif.C14.glueAsCoded_eq_whole",
+    "PorepyVerif.C14.regions_inside_of_contains_neighbours",
+    "PorepyVerif.C14.own_face_regions_inside",
+    "PorepyVerif.C14.own_cell_regions_inside",
+    "PorepyVerif.C14.affected_face_regions_inside",
 ]
 LEAN_MODULES = ["PorepyVerif.C14.Props"]
 AUDIT = "PorepyVerif/C14/Audit.lean"
@@ -57,9 +63,12 @@ TRUSTED = [
 ]
 EXPLANATION = ("CORE (bookkeeping): model = COO triplets + zeroing of non-owned rows + local->global index expansion + sum + division by "
                "bincount + row replacement; glue_eq_whole: cover + locality => glued = one-piece for any number of subproblems/overlaps; "
-               "glueNoScale_eq_whole for Biot's cell-row terms; partial_update_rows / partial_update_eq_whole; l2g_maps_inverse. "
+               "glueNoScale_eq_whole for Biot's cell-row terms; glue_eq_whole_vec (nd rows per face); glueAsCoded_eq_whole (the Mpfa shortcut as coded now); "
+               "partial_update_rows / partial_update_eq_whole(_specified); l2g_maps_inverse; index-set locality: own_face_regions_inside, "
+               "own_cell_regions_inside (subproblems()), affected_face_regions_inside (cell_ind_for_partial_update, any combination of cells/faces/nodes). "
                "Correspondence: the Lean driver glues the real local matrices with the real maps; result compared (1e-10) with the real "
-               "split result, the one-piece result, the real fresh partial matrices and the real in-place update. Oracle: all matrices of "
+               "split result, the one-piece result, the real fresh partial matrices and the real in-place update; the index sets of subproblems() and "
+               "cell_ind_for_partial_update (incl. the empty-face-array quirk) are compared exactly with the model. Oracle: all matrices of "
                "data[DISCRETIZATION_MATRICES][kw] one piece vs. splits vs. partial vs. numba, plus the theorem hypotheses on the real decomposition.")
 ASSUMPTIONS = ["tolerance class T (1e-10 relative to max(1, max|entry|)) between float results; the model is exact over the rationals",
                "Biot, specified_cells: the cell set handed to discretize() is widened by one layer of node neighbours (pp.partition.overlap), "
@@ -396,6 +405,9 @@ def _compute_inner(case):
     rec = {"g": g, "nf": g.num_faces, "nc": g.num_cells, "dim": g.dim, "table": _table(scheme, g.dim)}
     P_old = _params(case, g)
     rec["whole"] = _mats(_run(scheme, g, _params(case, g)))
+    cnm, fnm = g.cell_nodes().tocsc(), g.face_nodes.tocsc()
+    rec["cn"] = [sorted(int(x) for x in cnm.indices[cnm.indptr[c]:cnm.indptr[c + 1]]) for c in range(g.num_cells)]
+    rec["fn"] = [sorted(int(x) for x in fnm.indices[fnm.indptr[f]:fnm.indptr[f + 1]]) for f in range(g.num_faces)]
 
     # --- splits -----------------------------------------------------------------------------
     for name in ("split", "split2"):
@@ -441,6 +453,13 @@ def _compute_inner(case):
             # (partial_update_discretization), for the flag path the harness passes the widened set
             spec_ids = pp.partition.overlap(g, ids, 1)
         rec["spec_ids"] = spec_ids
+        with warnings.catch_warnings():
+            warnings.simplefilter("ignore")
+            ci, fi = fv.cell_ind_for_partial_update(g, **{mode: spec_ids})
+            rec["cellind"] = {"cells": sorted({int(x) for x in ci}), "faces": sorted({int(x) for x in fi})}
+            if mode == "cells":  # observation: an empty face array is not the same as None (the branches share active_faces)
+                ci, fi = fv.cell_ind_for_partial_update(g, cells=spec_ids, faces=np.array([], dtype=int))
+                rec["cellind_empty_faces"] = {"cells": sorted({int(x) for x in ci}), "faces": sorted({int(x) for x in fi})}
         # fresh partial discretisation (new parameters, empty matrix dictionary)
         p = _params(case, g, new=True)
         p["specified_" + mode] = spec_ids
@@ -544,7 +563,9 @@ def impl_run(case):
     rec = _rec(case)
     if "fatal" in rec:
         return {"fatal": rec["fatal"]["err"]}
-    out = {"split": {}, "whole": {}, "fresh": {}, "updated": {}, "maps": {"gidx": rec.get("face_map_rows")}}
+    out = {"split": {}, "whole": {}, "fresh": {}, "updated": {}, "maps": {"gidx": rec.get("face_map_rows")},
+           "subgrid": {"cells": [[int(x) for x in s["l2gc"]] for s in rec["subs"]], "faces": [[int(x) for x in s["F"]] for s in rec["subs"]]},
+           "cellind": rec.get("cellind"), "cellind_empty_faces": rec.get("cellind_empty_faces")}
     for n in _chosen(case, rec):
         out["whole"][n] = _canon(rec["whole"][n])
         sp = rec.get("split")
@@ -577,8 +598,8 @@ def model_ops(case):
         meta = rec["table"][n]
         rowkind, ndr, colkind, ndc, pos = meta
         nrow = rec["nf"] if rowkind == "face" else rec["nc"]
-        ops.append({"op": "glue", "tag": f"split:{n}", "ndr": ndr, "ndc": ndc, "divide": rowkind == "face", "nrow": nrow,
-                    "subs": [_sub_json(s, meta) for s in rec["subs"]]})
+        ops.append({"op": "gluecoded" if case["scheme"] == "mpfa" else "glue", "tag": f"split:{n}", "ndr": ndr, "ndc": ndc,
+                    "divide": rowkind == "face", "nrow": nrow, "subs": [_sub_json(s, meta) for s in rec["subs"]]})
         if case.get("partial") and "active_sub" in rec:
             ops.append({"op": "glue", "tag": f"fresh:{n}", "ndr": ndr, "ndc": ndc, "divide": False, "nrow": nrow, "store": True,
                         "subs": [_sub_json(rec["active_sub"], meta)]})
@@ -590,6 +611,14 @@ def model_ops(case):
     s0 = rec["subs"][0]
     nd = 1 if case["scheme"] == "mpfa" else rec["dim"]
     probe = sorted({int(f) * nd + (i % nd) for i, f in enumerate(s0["l2gf"][:6])})
+    ops.append({"op": "subgrid", "tag": "subgrid", "cn": rec["cn"], "fn": rec["fn"], "parts": [[int(x) for x in s["C"]] for s in rec["subs"]]})
+    if "cellind" in rec:
+        mode = case["partial"]["mode"]
+        spec = {"cells": None, "faces": None, "nodes": None}
+        spec[mode] = [int(x) for x in rec["spec_ids"]]
+        ops.append(dict({"op": "cellind", "tag": "cellind", "cn": rec["cn"], "fn": rec["fn"]}, **spec))
+        if "cellind_empty_faces" in rec:
+            ops.append(dict({"op": "cellind", "tag": "cellind_empty_faces", "cn": rec["cn"], "fn": rec["fn"]}, **dict(spec, faces=[])))
     ops.append({"op": "maps", "tag": "maps", "l2g": [int(x) for x in s0["l2gf"]], "nd": nd, "probe": probe})
     return ops
 
@@ -605,6 +634,9 @@ def model_decode(outs, case):
         if tag == "maps":
             res["maps"] = {"gidx": o.get("gidx"), "back_ok": o.get("back") == list(range(len(o.get("gidx") or []))),
                            "lidx": o.get("lidx"), "probe": op["probe"], "l2g": op["l2g"], "nd": op["nd"]}
+            continue
+        if tag in ("subgrid", "cellind", "cellind_empty_faces"):
+            res[tag] = o
             continue
         sec, n = tag.split(":", 1)
         if "err" in o:
@@ -665,6 +697,11 @@ def compare(impl, model, case):
             r = _cmp_entries(up["e"], mu["e"], scale, f"real updated matrix vs Lean updateRows [{n}]")
             if r:
                 return r
+    for tag in ("subgrid", "cellind", "cellind_empty_faces"):
+        if impl.get(tag) is not None:
+            mo = model.get(tag)
+            if mo is None or mo.get("cells") != impl[tag]["cells"] or mo.get("faces") != impl[tag]["faces"]:
+                return f"{tag}: index sets of the real code {json.dumps(impl[tag])[:300]} vs model {json.dumps(mo)[:300]}"
     mm = model["maps"]
     if impl["maps"]["gidx"] != mm.get("gidx"):
         return f"index expansion: subgrid_to_grid_mapping rows {impl['maps']['gidx'][:12]}.. vs model gidx {str(mm.get('gidx'))[:80]}"
@@ -736,6 +773,9 @@ def _oracle(case):
     if ccnt.size != nc or np.any(ccnt != 1):
         return {"what": f"{desc}: cells_in_subgrid is not a partition of the cells: counts {ccnt.tolist()}", "key": f"{scheme}:split:cells-not-partitioned"}
     late_full = [i for i, s in enumerate(subs) if i > 0 and s["F"].size == nf]
+    for i, s in enumerate(subs):  # hypothesis of glueAsCoded_eq_glue: a subproblem owning all faces keeps the numbering
+        if s["F"].size == nf and not (np.array_equal(s["l2gf"], np.arange(nf)) and np.array_equal(s["l2gc"], np.arange(nc))):
+            return {"what": f"{desc}: subproblem {i} owns all faces but its local-to-global maps are not the identity", "key": f"{scheme}:split:full-cover-subproblem-not-identity"}
     # locality: every real subproblem reproduces the one-piece rows of the entities it owns
     for pi, s in enumerate(subs):
         for n, (rowkind, ndr, colkind, ndc, pos) in rec["table"].items():
